@@ -30,6 +30,7 @@ func init() {
 		{WL: "conversion", Cfg: "prop=C15,steer=1,faults=exit,clients=1", Quick: 300, Thor: 8000},
 		{WL: "conversion", Cfg: "prop=C15,shape=fork,faults=exit,clients=1", Quick: 300, Thor: 8000},
 		{WL: "conversion", Cfg: "prop=C15,steer=1,faults=exit,clients=1,mixed=1", Quick: 200, Thor: 6000},
+		{WL: "conversion", Cfg: "prop=C15,steer=1,faults=exit,clients=1,settings=1", Quick: 150, Thor: 4000},
 	}
 }
 
@@ -476,6 +477,10 @@ func runConversionWL(e *Env) {
 			h.Sched = []SchedBinding{sb}
 		}
 		h.Extra = map[string]any{"kubernetesCustomResourceConversion": []any{cb}}
+		if e.CfgIs("settings", "1") {
+			// a rate-limited conversion hook: legal, unusual; steps wait for the limiter and still all run
+			h.Extra["settings"] = map[string]any{"executionMinInterval": []string{"1500ms", "2s", "3s"}[wl.Choose(3)], "executionBurst": 1 + wl.Choose(2)}
+		}
 		hooks = append(hooks, h)
 	}
 	o := NewOpSim(e, hooks)
@@ -521,8 +526,8 @@ func runConversionWL(e *Env) {
 		Kind string // ok | exit | message | count
 		Msg  string
 	}
-	stepLog := map[string][]string{}  // uid -> steps "from>to@hook"
-	var foreign []string               // executions with a Conversion context and anything else
+	stepLog := map[string][]string{} // uid -> steps "from>to@hook"
+	var foreign []string             // executions with a Conversion context and anything else
 	outcomes := map[string][]stepOutcome{}
 	o.Behave = func(x *Exec) {
 		x.Dur = time.Duration(wl.Choose(3)) * 50 * time.Millisecond
